@@ -462,9 +462,15 @@ static void c2_pro_tick(void *c)
 	struct cthr2 *t = c;
 	if (t->pro != NULL) {
 		int spin = (int)(rnd(&t->rs) % 400);
+		int k;
 		iv_wait_interest_kill(t->pro, SIGKILL);
 		while (spin-- > 0)
 			sched_yield();
+		/* the kill helper again, while the reaper (possibly another thread) notices the death and marks the interest */
+		iv_wait_interest_kill(t->pro, 0);
+		for (k = 0; k < 4; k++)
+			if (t->wi[k] != NULL)
+				iv_wait_interest_kill(t->wi[k], 0);	/* these children exit at once: their death is being reaped about now */
 		iv_wait_interest_unregister(t->pro);
 		free(t->pro);
 		t->pro = NULL;
